@@ -318,3 +318,211 @@ def translate_table_loops(src, fname, table, flag, prefix='py_'):
     out += 'Definition %s_cols %s : Z := %s.\n' % (name, sig, shape[1])
     out += 'Definition %s_assigns %s : list (Z * Z * Z) :=\n  %s.\n' % (name, sig, lst)
     return out
+
+
+# ---------------------------------------------------------------------------------------------
+# swap-counting exchange sorts:  for i in range(n): for j in range(a, b): if K(x[j]) REL K(x[j+1]): exchange; count += 1
+def _is_name(e, n):
+    return isinstance(e, ast.Name) and e.id == n
+
+
+def translate_swap_sort(src, fname, prefix='py_'):
+    """-> Gallina text describing the loop nest of a swap-counting sort: pass count, positions visited by a pass
+    (functions of the length, over nat), comparison relation and key, whether a pass without exchange ends the sort."""
+    tree = ast.parse(src)
+    fdefs = {n.name: n for n in tree.body if isinstance(n, ast.FunctionDef)}
+    if fname not in fdefs:
+        raise Unsupported('function not found')
+    fdef = fdefs[fname]
+    if len(fdef.args.args) != 1:
+        raise Unsupported('signature')
+    arr = fdef.args.args[0].arg
+    body = list(fdef.body)
+    if body and isinstance(body[0], ast.Expr) and isinstance(body[0].value, ast.Constant):
+        body = body[1:]
+    work, key0, lenv, cnt = arr, None, None, None
+    k = 0
+    # prologue: larr = len(arr) ; [parr = [[i[0] % 2, i] for i in arr]] ; swap_count = 0
+    while k < len(body) and isinstance(body[k], ast.Assign) and len(body[k].targets) == 1 \
+            and isinstance(body[k].targets[0], ast.Name):
+        tg, v = body[k].targets[0].id, body[k].value
+        if isinstance(v, ast.Call) and _is_name(v.func, 'len') and len(v.args) == 1 and _is_name(v.args[0], arr):
+            lenv = tg
+        elif isinstance(v, ast.Constant) and v.value == 0:
+            cnt = tg
+        elif isinstance(v, ast.ListComp) and len(v.generators) == 1 and _is_name(v.generators[0].iter, arr) \
+                and isinstance(v.elt, ast.List) and len(v.elt.elts) == 2 \
+                and ast.unparse(v.elt.elts[0]) == '%s[0] %% 2' % v.generators[0].target.id \
+                and _is_name(v.elt.elts[1], v.generators[0].target.id):
+            work, key0 = tg, 'KParityOfFirst'        # decorated copy [[x[0] % 2, x] for x in arr]
+        else:
+            raise Unsupported('prologue ' + ast.unparse(body[k])[:60])
+        k += 1
+    if lenv is None or cnt is None or k >= len(body) or not isinstance(body[k], ast.For):
+        raise Unsupported('prologue shape')
+    outer = body[k]
+    tail = body[k + 1:]
+    if not (isinstance(outer.target, ast.Name) and isinstance(outer.iter, ast.Call) and _is_name(outer.iter.func, 'range')
+            and len(outer.iter.args) == 1 and _is_name(outer.iter.args[0], lenv) and not outer.orelse):
+        raise Unsupported('outer loop')
+    iv = outer.target.id
+    ob = list(outer.body)
+    # swapped = False ; for j ... ; if not swapped: break
+    if not (len(ob) == 3 and isinstance(ob[0], ast.Assign) and isinstance(ob[0].value, ast.Constant) and ob[0].value.value is False
+            and isinstance(ob[1], ast.For) and isinstance(ob[2], ast.If)):
+        raise Unsupported('outer body')
+    flag = ob[0].targets[0].id
+    brk = ob[2]
+    if not (isinstance(brk.test, ast.UnaryOp) and isinstance(brk.test.op, ast.Not) and _is_name(brk.test.operand, flag)
+            and len(brk.body) == 1 and isinstance(brk.body[0], ast.Break) and not brk.orelse):
+        raise Unsupported('early exit')
+    inner = ob[1]
+    if not (isinstance(inner.target, ast.Name) and isinstance(inner.iter, ast.Call) and _is_name(inner.iter.func, 'range')
+            and len(inner.iter.args) == 2 and not inner.orelse):
+        raise Unsupported('inner loop')
+    jv = inner.target.id
+
+    def nat_expr(e):
+        if isinstance(e, ast.Constant) and isinstance(e.value, int) and e.value >= 0:
+            return '%d' % e.value
+        if _is_name(e, lenv):
+            return 'v_larr'
+        if _is_name(e, iv):
+            return 'v_i'
+        if isinstance(e, ast.BinOp) and isinstance(e.op, (ast.Add, ast.Sub)):
+            return '(%s %s %s)' % (nat_expr(e.left), '+' if isinstance(e.op, ast.Add) else '-', nat_expr(e.right))
+        raise Unsupported('bound ' + ast.unparse(e))
+    # Python's integer bounds may go negative (an empty range); truncated subtraction on nat gives the same range
+    # as long as every subtraction only subtracts from a sum that starts with the length: checked by shape
+    lo, hi = nat_expr(inner.iter.args[0]), nat_expr(inner.iter.args[1])
+    ib = list(inner.body)
+    if not (len(ib) == 1 and isinstance(ib[0], ast.If) and not ib[0].orelse and isinstance(ib[0].test, ast.Compare)
+            and len(ib[0].test.ops) == 1):
+        raise Unsupported('inner body')
+    test = ib[0].test
+    want_l = {'%s[%s][0]' % (work, jv): 'KFirst', '%s[%s]' % (work, jv): 'KSelf'}
+    ltxt, rtxt = ast.unparse(test.left), ast.unparse(test.comparators[0])
+    if ltxt not in want_l or rtxt != ltxt.replace('[%s]' % jv, '[%s + 1]' % jv, 1):
+        raise Unsupported('comparison ' + ast.unparse(test))
+    key = want_l[ltxt]
+    if key0:
+        if key != 'KFirst':
+            raise Unsupported('decorated comparison')
+        key = key0
+    rel = {ast.Gt: 'RGt', ast.Lt: 'RLt'}.get(type(test.ops[0]))
+    if rel is None:
+        raise Unsupported('relation')
+    acts = [ast.unparse(x) for x in ib[0].body]
+    swap = '%s[%s], %s[%s + 1] = (%s[%s + 1], %s[%s])' % ((work, jv) * 4)
+    if sorted(acts) != sorted([swap, '%s = True' % flag, '%s += 1' % cnt]):
+        raise Unsupported('exchange body ' + '; '.join(acts)[:100])
+    # epilogue: [copy the decorated list back] ; return count[, arr]
+    if tail and isinstance(tail[0], ast.For):
+        if not key0 or ast.unparse(tail[0]).replace('\n', ' ').split() != \
+                ('for indx, val in enumerate(%s): %s[indx] = list(val[1])' % (work, arr)).split():
+            raise Unsupported('copy back')
+        tail = tail[1:]
+    if not (len(tail) == 1 and isinstance(tail[0], ast.Return)):
+        raise Unsupported('epilogue')
+    rv = tail[0].value
+    if not (_is_name(rv, cnt) or (isinstance(rv, ast.Tuple) and _is_name(rv.elts[0], cnt))):
+        raise Unsupported('return value')
+    name = prefix + fname
+    out = 'Definition %s_npasses (v_larr : nat) : nat := v_larr.\n' % name
+    out += 'Definition %s_pass (v_larr v_i : nat) : list nat := seq %s (%s - %s).\n' % (name, lo, hi, lo)
+    out += 'Definition %s_rel : sort_rel := %s.\n' % (name, rel)
+    out += 'Definition %s_key : sort_key := %s.\n' % (name, key)
+    return out
+
+
+# ---------------------------------------------------------------------------------------------
+# constructors that build a parameter list:  guards ; assignments ; param = [] ; for ...: param.append([a, b, c]) ;
+# return Wavefunction(param, broken=[...])
+class PTr(GTr):
+    def expr(self, e):
+        if isinstance(e, ast.Call) and isinstance(e.func, ast.Name) and e.func.id in ('min', 'max') and len(e.args) == 2 \
+                and not e.keywords:
+            return '(Z.%s %s %s)' % (e.func.id, self.expr(e.args[0]), self.expr(e.args[1]))
+        return super().expr(e)
+
+
+def translate_param_ctor(src, fname, prefix='py_'):
+    tree = ast.parse(src)
+    fdefs = {n.name: n for n in tree.body if isinstance(n, ast.FunctionDef)}
+    if fname not in fdefs:
+        raise Unsupported('function not found')
+    fdef = fdefs[fname]
+    args = [a.arg for a in fdef.args.args]
+    if fdef.args.vararg or fdef.args.kwarg or fdef.args.kwonlyargs or fdef.args.defaults:
+        raise Unsupported('signature')
+    body = list(fdef.body)
+    if body and isinstance(body[0], ast.Expr) and isinstance(body[0].value, ast.Constant):
+        body = body[1:]
+    tr = PTr({})
+    bound = set(args)
+    late = []            # variables first assigned under an `if` without else: pre-bound to 0 (never read unbound if the
+    text = ''            # conditions are exhaustive; the equivalence theorem does not depend on the default)
+    plist = None
+    k = 0
+    while k < len(body):
+        st = body[k]
+        if isinstance(st, ast.If) and not st.orelse and len(st.body) == 1 and isinstance(st.body[0], ast.Raise):
+            text += 'if %s then None else ' % tr.cond(st.test)
+        elif isinstance(st, ast.If) and not st.orelse and all(
+                isinstance(x, ast.Assign) and len(x.targets) == 1 and isinstance(x.targets[0], ast.Name) for x in st.body):
+            c = tr.cond(st.test)
+            for x in st.body:
+                v = x.targets[0].id
+                if v not in bound:
+                    late.append(v)
+                    bound.add(v)
+                text += 'let v_%s := (if %s then %s else v_%s) in ' % (v, c, tr.expr(x.value), v)
+        elif isinstance(st, ast.Assign) and len(st.targets) == 1 and isinstance(st.targets[0], ast.Name):
+            v = st.targets[0].id
+            if isinstance(st.value, ast.List) and not st.value.elts:
+                if plist is not None:
+                    raise Unsupported('two lists')
+                plist = v
+            else:
+                text += 'let v_%s := %s in ' % (v, tr.expr(st.value))
+                bound.add(v)
+        elif isinstance(st, ast.For):
+            break
+        else:
+            raise Unsupported('statement ' + ast.unparse(st)[:60])
+        k += 1
+    if plist is None or k != len(body) - 2 or not isinstance(body[k], ast.For) or not isinstance(body[k + 1], ast.Return):
+        raise Unsupported('shape: one list, one loop, return')
+    loop, ret = body[k], body[k + 1]
+    if not (isinstance(loop.target, ast.Name) and isinstance(loop.iter, ast.Call) and isinstance(loop.iter.func, ast.Name)
+            and loop.iter.func.id == 'range' and len(loop.iter.args) == 2 and not loop.orelse):
+        raise Unsupported('loop header')
+    lo, hi = tr.expr(loop.iter.args[0]), tr.expr(loop.iter.args[1])
+    inner = ''
+    item = None
+    for x in loop.body:
+        if isinstance(x, ast.Assign) and len(x.targets) == 1 and isinstance(x.targets[0], ast.Name):
+            inner += 'let v_%s := %s in ' % (x.targets[0].id, tr.expr(x.value))
+        elif isinstance(x, ast.Expr) and isinstance(x.value, ast.Call) and isinstance(x.value.func, ast.Attribute) \
+                and x.value.func.attr == 'append' and isinstance(x.value.func.value, ast.Name) and x.value.func.value.id == plist \
+                and len(x.value.args) == 1 and isinstance(x.value.args[0], ast.List) and len(x.value.args[0].elts) == 3 and item is None:
+            item = '(%s, %s, %s)' % tuple(tr.expr(e) for e in x.value.args[0].elts)
+        else:
+            raise Unsupported('loop body ' + ast.unparse(x)[:60])
+    if item is None:
+        raise Unsupported('no append')
+    rv = ret.value
+    if not (isinstance(rv, ast.Call) and len(rv.args) == 1 and isinstance(rv.args[0], ast.Name) and rv.args[0].id == plist
+            and ast.unparse(rv.func).endswith('Wavefunction') and len(rv.keywords) == 1 and rv.keywords[0].arg == 'broken'
+            and isinstance(rv.keywords[0].value, ast.List) and len(rv.keywords[0].value.elts) == 1
+            and isinstance(rv.keywords[0].value.elts[0], ast.Constant)):
+        raise Unsupported('return')
+    broken = rv.keywords[0].value.elts[0].value
+    pre = ''.join('let v_%s := 0 in ' % v for v in late)
+    sig = ' '.join('(v_%s : Z)' % a for a in args)
+    name = prefix + fname
+    out = 'Definition %s_params %s : option (list (Z * Z * Z)) :=\n  %s%sSome (flat_map (fun v_%s => %s[%s]) (zrange %s %s)).\n' % (
+        name, sig, pre, text, loop.target.id, inner, item, lo, hi)
+    out += 'Definition %s_broken_spin : bool := %s.\n' % (name, 'true' if broken == 'spin' else 'false')
+    out += 'Definition %s_broken_number : bool := %s.\n' % (name, 'true' if broken == 'number' else 'false')
+    return out
